@@ -17,17 +17,57 @@ pub fn check(tier: Tier) -> Check {
     // while an acknowledgement was being written (4): exactly one acknowledgement per packet here too
     parts.push(Part::new("C08/acks", json!({"depth": tier.pick(2, 3), "pids": [4242, 1], "flavour": 3}), 0, tier.pick(40, 300)));
     parts.push(Part::new("C08/acks", json!({"depth": tier.pick(2, 3), "pids": [4242, 1], "flavour": 4}), 0, tier.pick(40, 300)));
+    // a Maximum Packet Size so small that the client can send no request at all (2 / 3 bytes): every
+    // inbound QoS>0 PUBLISH and PUBREL is acknowledged all the same (the limit binds requests, C12)
+    parts.push(Part::new("C08/tiny", json!({"depth": tier.pick(3, 4)}), 0, tier.pick(40, 300)));
     Check {
         also_rel: false,
         property: "C08",
         level: "model_checking",
-        rule: "all sequences of inbound PUBLISH (QoS 0/1/2 x DUP x packet id x subscription identifier absent / live stream / dropped stream / never registered) and PUBREL (also several packets arriving in one read, repeated PUBRELs, PUBRELs for identifiers never seen, PUBRELs in their three-byte form with reason 0x92 and in full with a reason string), with one client publish interleaved; the same on the second connection of a Context whose first connection ended inside an inbound packet or with a failed acknowledgement write; the wire must show exactly one PUBACK/PUBREC/PUBCOMP per packet with its identifier, in arrival order; non-trivial = at least one acknowledgement was due".into(),
+        rule: "all sequences of inbound PUBLISH (QoS 0/1/2 x DUP x packet id x subscription identifier absent / live stream / dropped stream / never registered) and PUBREL (also several packets arriving in one read, repeated PUBRELs, PUBRELs for identifiers never seen, PUBRELs in their three-byte form with reason 0x92 and in full with a reason string), with one client publish interleaved; the same under a Maximum Packet Size of 2 / 3 bytes (which binds the client's requests, not its acknowledgements); the same on the second connection of a Context whose first connection ended inside an inbound packet or with a failed acknowledgement write; the wire must show exactly one PUBACK/PUBREC/PUBCOMP per packet with its identifier, in arrival order; non-trivial = at least one acknowledgement was due".into(),
         assumptions: vec!["the reason code inside the client's acknowledgement is unconstrained".into()],
         parts,
     }
 }
 
+fn tiny(name: String, params: Value) -> Scenario {
+    let depth = params["depth"].as_u64().unwrap_or(3) as usize;
+    Box::new(move |chz, ex| {
+        let m = [2u32, 3][chz.choose(2)];
+        let mut sys = Sys::new("C08", &name, chz);
+        sys.params = params.clone();
+        sys.m.check_streams = false;
+        sys.bring_up(vec![Prop::u32(P_MAXIMUM_PACKET_SIZE, m)]);
+        let evs = |s: &Sys| {
+            let mut e = vec![];
+            let n = s.transitions;
+            for pid in [1u16, 300] {
+                for q in 1..3u8 {
+                    for k in [vec![], vec![77u32]] {
+                        e.push(Ev::Deliver(inbound(q, false, pid, &k, &format!("m{}", n))));
+                    }
+                }
+                e.push(Ev::Deliver(pubrel_in(pid)));
+            }
+            e.push(Ev::Deliver(inbound(0, false, 0, &[], "q0")));
+            e.push(Ev::DeliverBatch(vec![inbound(2, false, 1, &[], "b1"), pubrel_in(1), inbound(1, true, 300, &[], "b2")]));
+            // requests are refused (too large), a ping fits
+            if s.m.ops.len() < 2 {
+                e.push(Ev::Start(OpSpec::Publish(PublishSpec::simple(1, "t", b"x"))));
+                e.push(Ev::Start(OpSpec::Ping));
+            }
+            e.extend(broker_acks(s, false, false));
+            e
+        };
+        drive(&mut sys, chz, depth, &|_| vec![], &evs);
+        sys.report(ex, &["inbound-ack", "pubrel-in"]);
+    })
+}
+
 pub fn scenario(name: &str, params: &Value) -> Scenario {
+    if name == "C08/tiny" {
+        return tiny(name.to_string(), params.clone());
+    }
     let depth = params["depth"].as_u64().unwrap_or(3) as usize;
     let pids: Vec<u16> = params["pids"]
         .as_array()
